@@ -11,10 +11,13 @@ ID = "C02"
 LEVEL = "exploration"
 
 SPECIAL_KEYS = ["a*b", "&a", "*", "a*[b", "a\\\\b", "/a", "a.b", "a/b", "a[b", "a]b", "a(b", "a)b", "a'b", 'a"b',
-                "a b", "a^b", "a$b", "a%b", "a\\b"]
+                "a b", "a^b", "a$b", "a%b", "a\\b",
+                # a literal * together with a backslash (C:\\logs\\*.log)
+                "t\\*", "a\\b*c"]
 NAMES = ["star", "lead-amp", "lone-star", "star-bracket", "two-backslashes",
          "lead-slash", "dot", "slash", "lbracket", "rbracket", "lparen", "rparen", "squote",
-         "dquote", "space", "caret", "dollar", "percent", "backslash"]
+         "dquote", "space", "caret", "dollar", "percent", "backslash",
+         "backslash-star", "backslash-in-star-key"]
 
 KW = "keyword"
 EXTRA = [
